@@ -91,7 +91,14 @@ def collect(prog, target_id):
             elif k == 'static':
                 into.scalars[s['name']] = s['ty']
             elif k == 'const':
-                into.scalars[s['name']] = name_type(s['name'])
+                t = name_type(s['name'])
+                if t is None:
+                    try:
+                        t = expr_type(s['e'], into)
+                    except Exception:
+                        t = None
+                if t:
+                    into.scalars[s['name']] = t
             elif k in ('for',):
                 into.scalars.setdefault(s['var'], name_type(s['var']))
             for sub in sub_bodies(s):
@@ -103,7 +110,15 @@ def collect(prog, target_id):
     # shared declarations and global consts come from the whole main text
     g = Names()
     scan(prog['main'], g, None)
-    consts = {s['name']: name_type(s['name']) for s in prog['main'] if s['k'] == 'const'}
+    def const_type(st):
+        t = name_type(st['name'])
+        if t is None:
+            try:
+                t = expr_type(st['e'], main)
+            except Exception:
+                t = None
+        return t
+    consts = {s['name']: const_type(s) for s in prog['main'] if s['k'] == 'const'}
     routine = None
     if in_main:
         names.scalars.update(main.scalars)
@@ -197,6 +212,11 @@ def oob_prints(r, names):
     """Subscripts outside the declared bounds (below and above, at a random
     dimension) and wrong index counts: must be reported as evaluation errors."""
     out = []
+    scal = [n for n, t in sorted(names.scalars.items()) if t in '%&!#$' and n not in names.arrays]
+    if scal and r.random() < 0.4:
+        # a subscript or a field on a scalar or a constant
+        n = r.choice(scal)
+        out.append(n + r.choice(('(1)', '.fa', '(0, 1)', '.fa.fb')))
     arrs = [(n, t, bs) for n, (t, bs) in sorted(names.arrays.items()) if bs]
     for _ in range(r.randint(0, 2)):
         if not arrs:
